@@ -294,6 +294,11 @@ def child_main(wfd: int, rfd: int, scenario: dict, event, clock, inv_no: int, du
     from dw import targeted
 
     targeted.install(opts.get("targeted") or [], RT)
+    contracts = None
+    if opts.get("contracts"):
+        from dw import contracts
+
+        RT.post("contracts_attached", report=contracts.install(RT))
     from dw.interp import build_handler
 
     handler, boot = build_handler(scenario, RT, inv_no)
@@ -321,5 +326,6 @@ def child_main(wfd: int, rfd: int, scenario: dict, event, clock, inv_no: int, du
     _time.sleep(0)  # let finished workers settle
     alive = [t.name for t in threading.enumerate() if t.is_alive() and t.name.startswith("dex-handler")]
     allthreads = [t.name for t in threading.enumerate() if t.is_alive() and t is not threading.current_thread()]
-    RT.rpc("inv_end", outcome=outcome, dex_alive=alive, threads=allthreads, perturb_hits=pert.hits if pert else 0)
+    RT.rpc("inv_end", outcome=outcome, dex_alive=alive, threads=allthreads, perturb_hits=pert.hits if pert else 0,
+           contract_evals=dict(contracts.COUNTS) if contracts else None)
     os._exit(0)
